@@ -414,6 +414,68 @@ def last_executions(history, epoch, n=6):
 
 
 # --------------------------------------------------------------------------------------------
+# C05
+# --------------------------------------------------------------------------------------------
+
+def check_C05(history):
+    out = []
+    for epoch, events in epochs_of(history).items():
+        execs = executions(events)
+        pool_filter = configured(history, epoch, "pool_filter", "reuse")
+        # what every executed test says about the states it produces
+        producer_mode = {}
+        for ex in execs:
+            for s_ in ex["start"]["sets"]:
+                producer_mode.setdefault((s_["obj"], s_["state"]), set()).add(s_["unset_mode"])
+        for ev in events:
+            if ev["kind"] == "door.get" and pool_filter in ("reuse", "block"):
+                out.append(V("C05", "sync-with-default-filter",
+                             f"a state was copied while backing out of {ev['label']} although the pool filter is {pool_filter}",
+                             worker=ev["worker"], seq=ev["seq"]))
+            if ev["kind"] != "door.unset":
+                continue
+            for r in ev["reqs"]:
+                item = (r["obj"], r["state"])
+                vm_os = short_root(r["obj"])
+                if (r["mode"] or "")[0:1] != "f":
+                    if r.get("removed"):
+                        out.append(V("C05", "removed-unmarked",
+                                     f"state {r['state']} of {vm_os} was removed although it is not marked for removal",
+                                     seq=ev["seq"], mode=r["mode"]))
+                    continue
+                modes = producer_mode.get(item)
+                if modes is not None and not any(m[0:1] == "f" for m in modes):
+                    out.append(V("C05", "unset-unmarked",
+                                 f"removal of state {r['state']} of {vm_os} was requested although its producer does not mark it",
+                                 seq=ev["seq"], modes=sorted(modes), request_mode=r["mode"]))
+                # nobody may be producing or using the state at this instant ...
+                for ex in execs:
+                    st = ex["start"]
+                    end_seq = ex["end"]["seq"] if ex["end"] is not None else float("inf")
+                    uses = any(n["obj"] == r["obj"] and n["state"] == r["state"] for n in st["needs"])
+                    makes = any(s_["obj"] == r["obj"] and s_["state"] == r["state"] for s_ in st["sets"])
+                    if not (uses or makes):
+                        continue
+                    if st["seq"] < ev["seq"] < end_seq:
+                        what = "dependant" if uses else "producer"
+                        out.append(V("C05", "unset-while-running",
+                                     f"removal of state {r['state']} of {vm_os} was requested while a {what} was running",
+                                     seq=ev["seq"], by=ev["worker"], running=st["label"], on=st["worker"]))
+                    # ... and no dependant may still be pending (start later without the state being produced again)
+                    if uses and st["seq"] > ev["seq"]:
+                        reproduced = any(
+                            o["end"] is not None and ev["seq"] < o["end"]["seq"] < st["seq"] and o["status"] == "PASS"
+                            and any(s_["obj"] == r["obj"] and s_["state"] == r["state"] for s_ in o["start"]["sets"])
+                            for o in execs)
+                        if not reproduced:
+                            out.append(V("C05", "unset-before-dependant",
+                                         f"removal of state {r['state']} of {vm_os} was requested before a dependant started",
+                                         seq=ev["seq"], by=ev["worker"], dependant=st["label"], on=st["worker"],
+                                         dependant_seq=st["seq"]))
+    return dedup(out)
+
+
+# --------------------------------------------------------------------------------------------
 # C08
 # --------------------------------------------------------------------------------------------
 
